@@ -407,9 +407,96 @@ def run_attack_case(ctx, case, rng):
         a.close()
 
 
+# ---------------------------------------------------------------------------
+# two readers on one channel under the preemption engine (vf.sched)
+def run_preempt(ctx, rng):
+    """recv and recv_stderr from two application threads on one real channel, every single-preemption
+    schedule at statement granularity over _check_add_window / recv / recv_stderr plus random
+    perturbation.  One reader crosses the 10 % threshold, the other consumes a little more; the receiver
+    clause is judged from the tap at quiescence (adjusts sent <= bytes the application read)."""
+    from paramiko.channel import Channel
+    from vf import sched
+
+    W = 32768
+    thr = W // 10
+    plans = []  # (variant, Plan)
+    for variant in ("recv-crosses", "stderr-crosses"):
+        for order in (["A", "B"], ["B", "A"]):
+            plans.append((variant, sched.Plan(order=order), True))
+    todo = []
+    with sched.Engine(sched.functions_of(Channel._check_add_window, Channel.recv, Channel.recv_stderr), name="vf.c19") as eng:
+        p = pair.Pair(rng=rng)
+        cm.watch(p.tc, p.rec, "c")
+        cm.watch(p.ts, p.rec, "s")
+        if not p.start() or not p.auth():
+            ctx.inconclusive("handshake failed (preemption stratum)")
+            return
+        cm.diverge_ids(p, rng)
+        keep = []
+
+        def one(variant, plan):
+            c, s = p.session(window_size=W)
+            keep.append((c, s))
+            big, small = thr + 24, 100
+            if variant == "recv-crosses":
+                s.send(b"\x01" * big)
+                s.send_stderr(b"\x81" * small)
+            else:
+                s.send_stderr(b"\x81" * big)
+                s.send(b"\x01" * small)
+            want_out, want_err = (big, small) if variant == "recv-crosses" else (small, big)
+            if not pair.wait_for(lambda: len(c.in_buffer) == want_out and len(c.in_stderr_buffer) == want_err, 20, 0.001):
+                ctx.inconclusive("data did not arrive for a preemption run")
+                return None
+            crossing = c.recv if variant == "recv-crosses" else c.recv_stderr
+            other = c.recv_stderr if variant == "recv-crosses" else c.recv
+            crossing(thr - 6)  # below the threshold: in_window_sofar == thr - 6, no adjust yet
+            if c.in_window_sofar != thr - 6:
+                ctx.inconclusive("unexpected in_window_sofar before a preemption run")
+                return None
+            run = eng.execute([("A", lambda: crossing(30)), ("B", lambda: other(small))], plan)
+            if run.hung or run.excs or run.harness_errors:
+                ctx.inconclusive("preemption run did not end cleanly: %s %s" % (run.excs, run.harness_errors))
+                return None
+            ctx.count("preempt_runs")
+            if plan.park is not None and run.park_reached:
+                ctx.count("preempt_parks_reached")
+                if any(q.endswith("_check_add_window") for r, q, l in run.during_park):
+                    ctx.count("preempt_other_reader_in_check_add_window_during_park")
+            seen_iids.add(run.iid)
+            c.close()
+            return run
+
+        seen_iids = set()
+        try:
+            counts = {}
+            for variant, plan, serial in plans:
+                run = one(variant, plan)
+                if run is not None:
+                    counts[(variant, tuple(plan.order))] = dict(run.counts)
+            idx = 0
+            for (variant, order), cnt in sorted(counts.items()):
+                for pl in sched.Engine.sweep_plans(list(order), cnt):
+                    if ctx.mine(idx):
+                        one(variant, pl)
+                    idx += 1
+            ctx.note("c19_single_preemption_plans", idx)
+            for k in range(ctx.pick(6, 60)):
+                variant = ("recv-crosses", "stderr-crosses")[k % 2]
+                one(variant, sched.Plan(perturb=dict(seed="%d/%d/%d" % (ctx.seed, ctx.shard, k), prob=0.5)))
+            p.wait_quiet(0.05, 5)
+            case = dict(kind="two-readers-preempted", window=W, plans=idx)
+            judge(ctx, p.rec, ("c",), case)
+            ctx.count("preempt_distinct_interleavings", len(seen_iids))
+            ctx.case(("preempt", ctx.shard, sorted(seen_iids)), sample=case)
+        finally:
+            p.close()
+
+
 def run(ctx):
     cm.install()
     rng = ctx.rng
+    ctx.guard(run_preempt, ctx, rng)
     n_pair = ctx.pick(10, 60)
     n_att = ctx.pick(8, 40)
     dl = ctx.deadline(30, 400)
@@ -436,3 +523,6 @@ def run(ctx):
     ctx.require("window_exactly_exhausted", 5)
     ctx.require("attacker_cases", 8)
     ctx.require("transfers_complete", 10)
+    ctx.require("preempt_runs", 60)
+    ctx.require("preempt_parks_reached", 30)
+    ctx.require("preempt_other_reader_in_check_add_window_during_park", 10)
